@@ -80,6 +80,7 @@ func gen(p *Prop, tier string, seed uint64, out string) {
 				min = shrink(p, line, sig)
 			}
 			fmt.Fprintf(wr, "%d\t%s\t%s\n", n, strings.ReplaceAll(r.Oracle, "\t", " "), min)
+			wr.Flush()
 			viol++
 		}
 		if r.Class == "" {
